@@ -56,6 +56,9 @@ class TakeLast(Blockwise):
 
     @staticmethod
     def operation(a, skipna=True):
+        if a.empty:
+            # an empty partition carries nothing into the following ones
+            return None
         if skipna:
             if a.ndim == 1 and (a.empty or a.isna().all()):
                 return None
@@ -85,17 +88,28 @@ class CumulativeFinalize(Expr):
             else:
                 # aggregate with previous cumulation results
                 dsk[(intermediate_name, i)] = (
-                    methods._cum_aggregate_apply,
+                    _cum_aggregate_apply,
                     self.aggregator,
                     (intermediate_name, i - 1),
                     (previous_partitions._name, i - 1),
                 )
             dsk[(self._name, i)] = (
+                _cum_aggregate_apply,
                 self.aggregator,
                 (self.frame._name, i),
                 (intermediate_name, i),
             )
         return dsk
+
+
+def _cum_aggregate_apply(aggregate, x, y):
+    """Combine two cumulation results; ``None`` stands for "nothing so far"
+    (all previous partitions were empty or null)."""
+    if y is None:
+        return x
+    if x is None:
+        return y
+    return aggregate(x, y)
 
 
 class CumSum(CumulativeAggregations):
